@@ -147,7 +147,7 @@ impl ToTokens for FlattenInitializer<'_> {
             None
         } else {
             Some(quote! {
-                .map_err(|e| e.add_sibling_alts_for_unknown_field(&[#(#parent_field_names),*]))
+                .map_err(|__e| __e.add_sibling_alts_for_unknown_field(&[#(#parent_field_names),*]))
             })
         };
 
@@ -207,7 +207,7 @@ impl ToTokens for MatchArm<'_> {
         let extractor = quote_spanned!(with_callable.span()=>
         ::darling::export::identity::<fn(&::darling::export::syn::Meta) -> ::darling::Result<_>>(#with_callable)(#inner)
             #post_transform
-            .map_err(|e| e.with_span(&#inner).at(#location))
+            .map_err(|__e| __e.with_span(&#inner).at(#location))
         );
 
         tokens.append_all(if field.multiple {
